@@ -33,7 +33,7 @@ REQUIRED = [
     "M44_computeRSMatrix_degenerate_partial",
     "twoSidedJacobiRotation_invariant3", "twoSidedJacobiRotation_invariant4", "jacobiSVD_run_invariant3", "jacobiSVD_run_invariant4",
     "jacobiSVD_from_identity3", "jacobiSVD_from_identity4", "twoSidedJacobiRotation_computed_parameters",
-    "twoSidedJacobiRotation_tol0_invariant", "jacobiSVD_sweeps_tol0_invariant3", "jacobiSVD_sweeps_tol0_invariant4", "jacobiSVD_post3", "jacobiSVD_post4_partial",
+    "twoSidedJacobiRotation_tol0_invariant", "jacobiSVD_sweeps_tol0_invariant3", "jacobiSVD_sweeps_tol0_invariant4", "jacobiRotation_invariant", "jacobiRotation_parameters", "jacobiSVD_post3", "jacobiSVD_post4_partial",
     "jacobiSVD_forcePositiveDeterminant", "maxEigenVector_index3", "minEigenVector_index3", "trigSpec_real"]
 REQUIRED_FULL = ["M33_sansScaling_recompose", "M33_removeScaling_recompose"]
 
@@ -272,8 +272,9 @@ def run(chk):
     chk.assumptions = ["theorems are about exact arithmetic over an ordered field; sqrt/sin/cos/atan2 are parameters with explicit hypotheses "
                        "(SqrtSpec, TrigSpec), shown satisfiable by the real functions",
                        "one Jacobi rotation is proved to be an orthogonal similarity GIVEN parameters that are unit pairs and diagonalise "
-                       "the 2x2 block; that the computed parameters do so up to rounding, convergence of the sweeps, accuracy, "
-                       "the order of the four singular values of the 4x4 version and procrustes optimality are MEASURED (partial)",
+                       "the 2x2 block, and the parameters the SVD code computes with tolerance 0 are proved to be such; the effect of a "
+                       "positive tolerance, rounding, convergence of the sweeps, accuracy, the order of the four singular values of the "
+                       "4x4 version and procrustes optimality are MEASURED (partial)",
                        "3-D extractSHRT/sansScaling recomposition uses the Euler round trip of property C11 as a hypothesis",
                        "computeRSMatrix: tail algebra and degenerate-A arm proved; factor selection checked bitwise on the real code"]
     chk.rule = ("correspondence: affine matrices S*H*R*T with graded conditioning 10^-12..10^12, negative scales/reflections, zero / dependent "
